@@ -1776,6 +1776,17 @@ struct ClosureApplyFn {
 
 fn compile_go(goenv: &GlobalGoEnv, closure: &anf::ImmExpr) -> goast::Stmt {
     let closure_ty = imm_ty(closure);
+    // `go f` with a plain function value (no closure environment): call it directly
+    if let tast::Ty::TFunc { ret_ty, .. } = &closure_ty {
+        let direct_call = anf::CExpr::ECall {
+            func: closure.clone(),
+            args: vec![],
+            ty: (**ret_ty).clone(),
+        };
+        return goast::Stmt::Go {
+            call: compile_cexpr(goenv, &direct_call),
+        };
+    }
     let apply = find_closure_apply_fn(goenv, &closure_ty)
         .expect("go statement closure must have an apply method");
 
